@@ -320,6 +320,10 @@ pub struct Interp<'a> {
     /// a lookup ran concurrently with a clear(): on which side of the counter reset it fell is not known
     lookups_uncertain: bool,
     policy_diverged: bool,
+    /// (index, creation instant) of TTL entries the last sweep left behind although they were due
+    overdue_survivors: BTreeSet<(u64, i64)>,
+    /// when the metrics last restarted from zero (construction, clear())
+    metrics_since: i64,
     metrics_bad_before_clear: bool,
     interposed_then_clear: bool,
     interposed_before_check: bool,
@@ -443,6 +447,8 @@ impl<'a> Interp<'a> {
             lookups_since_clear: 0,
             lookups_uncertain: false,
             policy_diverged: false,
+            overdue_survivors: BTreeSet::new(),
+            metrics_since: now,
             metrics_bad_before_clear: false,
             interposed_then_clear: false,
             interposed_before_check: false,
@@ -583,6 +589,7 @@ impl<'a> Interp<'a> {
                         }
                     }
                     self.lookups_since_clear = 0;
+                    self.metrics_since = self.m.now;
                     if r.is_err() {
                         self.any_err = true;
                     }
@@ -898,6 +905,16 @@ impl<'a> Interp<'a> {
             };
             if (mv.ratio - r).abs() > 1e-12 {
                 self.fail("metrics_ratio", P_C17, format!("{}: ratio {} != {}", what, mv.ratio, r));
+            }
+            // no recorded lifetime is longer than the time since the counters last restarted (at
+            // construction or at clear()): a sample can only stem from an admission after that
+            let age_s = (self.m.now - self.metrics_since) / NS;
+            if mv.hist_count > 0 && mv.hist_max > age_s {
+                self.fail(
+                    "histogram_lifetime",
+                    &["C11", "C17"],
+                    format!("{}: the life-expectancy histogram holds a lifetime of {} s, but the counters restarted only {} s ago", what, mv.hist_max, age_s),
+                );
             }
             if mv.hist_count != mv.hist_bucket_sum {
                 self.fail(
@@ -1552,6 +1569,8 @@ impl<'a> Interp<'a> {
         let (index, conflict) = self.key(k);
         let now = self.m.now;
         self.note_collide(k);
+        // what the store physically holds under the index before an insert_if_present
+        let pre_iip = if only_update { self.sut.snapshot().entries.into_iter().find(|e| e.index == index).map(|e| (dur_ns(e.ttl), st_ns(e.created_at))) } else { None };
         let r = if only_update {
             self.sut.insert_if_present(k, v, cost)
         } else {
@@ -1571,6 +1590,21 @@ impl<'a> Interp<'a> {
         };
         if ret {
             self.accept_ttl(k, v, false, ttl);
+        }
+        // C09, model-free: insert_if_present never creates an entry. An expired entry that a sweep
+        // has already had to reclaim (deadline + one bucket width before the last tick) is absent:
+        // reviving it is creating one
+        if only_update && ret && !self.in_interposed_op {
+            if let (Some((pttl, pcreated)), Some(tick_at)) = (pre_iip, self.last_tick_at) {
+                if self.overdue_survivors.contains(&(index, pcreated)) {
+                    let d = pcreated.saturating_add(pttl);
+                    self.fail(
+                        "iip_on_overdue_entry",
+                        &["C09", "C05"],
+                        format!("insert_if_present of key {} returned true although the entry under its index expired at {} and the cleanup at {} had to reclaim it", k, d - T0, tick_at - T0),
+                    );
+                }
+            }
         }
         if !self.m.synced {
             self.note_events(&log);
@@ -2009,6 +2043,7 @@ impl<'a> Interp<'a> {
         // clear() zeroes the counters (policy admit filter, metrics)
         self.m.m = MMetrics::default();
         self.lookups_since_clear = 0;
+        self.metrics_since = self.m.now;
         if !self.in_interposed_op {
             self.lookups_uncertain = false;
         }
@@ -2182,6 +2217,19 @@ impl<'a> Interp<'a> {
             self.fail("processor_error", &["C20"], format!("cleanup reported {}", e));
         }
         self.last_tick_at = Some(self.m.now);
+        // model-free: the sweep takes every bucket that has come due, so no entry whose deadline
+        // lies a bucket width (1 s) or more in the past is still stored afterwards
+        self.overdue_survivors.clear();
+        if !self.in_interposed_op {
+            let now = self.m.now;
+            for e in self.sut.snapshot().entries.iter() {
+                let (t, c) = (dur_ns(e.ttl), st_ns(e.created_at));
+                if t > 0 && t < HUGE_TTL && c.saturating_add(t).saturating_add(NS) <= now {
+                    self.overdue_survivors.insert((e.index, c));
+                    self.fail("sweep_left_overdue", &["C05"], format!("cleanup at {}: index {} ({}) expired at {} and is still stored", now - T0, e.index, e.value, c + t - T0));
+                }
+            }
+        }
         // model-free: whatever the cleanup hands to on_evict must have been written with a TTL
         // that has elapsed
         // (not for a tick that client actions were interposed into: a client update racing the
